@@ -17,6 +17,7 @@ sys.path.insert(0, os.path.dirname(os.path.abspath(__file__)))
 import rs2lean_analyze as ra
 import rs2lean_vm as rv
 import rs2lean_api as rapi
+import rs2lean_ints as ints
 from rs2lean_analyze import Unsupported, bad, matching, top_level_positions, parse_enum, int_of, find_seq
 from rs2lean_vm import tokenize, lean_id, LITERALS
 
@@ -75,10 +76,10 @@ class Parser(rapi.Parser):
     """+ char / string literals, `as` casts, `/` `%`, `*self`, closures, `panic!`, enum / literal / or-patterns"""
 
     def p_mul(self, ns):
-        l = self.p_unary(ns)
+        l = self.p_cast(ns)
         while self.peek().kind == 'op' and self.peek().text in ('*', '/', '%'):
             t = self.next()
-            l = ('bin', t.text, l, self.p_unary(ns), t.line)
+            l = ('bin', t.text, l, self.p_cast(ns), t.line)
         return l
 
     def p_unary(self, ns):
@@ -99,21 +100,24 @@ class Parser(rapi.Parser):
             bad('unary minus', t.line)
         if t.kind == 'op' and t.text in ('|', '||'):
             return self.closure()
-        e = self.p_postfix(ns)
-        while self.at('as'):
-            ln = self.next().line
-            ty = self.ident()
-            if self.at('<') or self.at('::'):
-                bad('cast to a type that is not a plain name', ln)
-            e = ('cast', e, ty, ln)
-        return e
+        return self.p_postfix(ns)             # (`as` is one level up: `p_cast` of the vm parser)
 
     def closure(self):
         t = self.expect('|')
         pat = self.pattern()
+        if self.at(':'):                 # `|b: &u8|`: the annotation is checked to be a scalar (or a reference to one); rustc has
+            self.next()                  # checked that it is the element type, and `*b` on it is the value
+            ty = self.type_(['|'])
+            if ty.lstrip('&') not in ('u8', 'char', 'usize', 'bool'):
+                bad('closure parameter of type `%s`' % ty, t.line)
+            if pat[0] != 'pbind':
+                bad('typed closure parameter with a pattern', t.line)
         self.expect('|')
         if self.at('{'):
-            bad('closure with a block body', t.line)
+            stmts, tail = self.block()
+            if stmts or tail is None:
+                bad('closure whose block body is not a single expression', t.line)
+            return ('closure', pat, tail, t.line)
         return ('closure', pat, self.expr(), t.line)
 
     def p_primary(self, ns):
@@ -174,6 +178,9 @@ class Parser(rapi.Parser):
             if len(s) != 1:
                 bad('character literal %s' % t.text, t.line)
             return ('pchar', s, t.line)
+        if t.kind == 'bchr':
+            self.next()
+            return ('pint', rv.byte_of(t), t.line)
         if t.kind != 'id':
             bad('pattern starting with `%s`' % t.text, t.line)
         name = self.ident()
@@ -271,6 +278,16 @@ SIGS = {
 GEN = {'push_usize': 'genPushUsize', 'is_special': 'genIsSpecial', 'push_quoted': 'genPushQuoted', 'escape': 'genEscape',
        'to_str': 'genToStr'}
 RESERVED = {'rest_', 'h_', 'acc', 'r_'}
+
+
+def vid(name):
+    """the Lean identifier of a Rust variable: a name that the generated code uses for itself (RESERVED, `t1`, `t2`, …) is
+    renamed apart (`n` -> `n_rs`), so that a local may be called anything"""
+    return lean_id(name + '_rs') if (name in RESERVED or re.match(r't[0-9]+$', name)) else lean_id(name)
+
+
+def clash_rs(name):
+    return name.endswith('_rs') and (name[:-3] in RESERVED or re.match(r't[0-9]+$', name[:-3]) is not None)
 NUM = ('usize', 'u8', 'int')
 
 
@@ -314,9 +331,9 @@ class Translator:
             ind += '  '
         return out, ind
 
-    def bind(self, c, name, t, line):
-        if name in c.types or name in RESERVED or name in self.names or re.match(r't[0-9]+$', name):
-            bad('`%s` shadows a name that is in scope (shadowing is not in the subset)' % name, line)
+    def bind(self, c, name, t, line, shadow=False):
+        if (name in c.types and not (shadow and name != c.buf and name != 'self')) or clash_rs(name) or name in self.names:
+            bad('`%s` shadows a name of an enclosing scope / a parameter (only an earlier `let` of the same block may be shadowed)' % name, line)
         c2 = c.copy()
         c2.types[name] = 'usize' if t == 'int' else t
         return c2
@@ -344,9 +361,43 @@ class Translator:
             n = e[1][0]
             if c.types[n] not in LEAN_T:
                 bad('`%s` (of type %s) as a value' % (n, c.types[n]), line)
-            return [], lean_id(n), c.types[n]
+            return [], vid(n), c.types[n]
         if k == 'ref':
             return self.vex(e[1], c)
+        if k == 'deref':
+            p, s, t = self.vex(e[1], c)
+            if e[1][0] == 'path' and (t in NUM or t in ('char', 'bool')):
+                return p, s, t                # `*b` on a reference to a scalar (a closure parameter `|b: &u8|`, `&b`)
+            bad('`*` on a value of type %s' % t, line)
+        if k == 'typed':                     # `let x: T = e`
+            p, s, t = self.vex(e[1], c)
+            if e[2] in ('usize', 'u8'):
+                if not (t == e[2] or (t == 'int' and s.isdigit() and ints.fits(int(s), e[2]))):
+                    bad('`let _: %s` of a value of type %s' % (e[2], t), line)
+                return p, s, e[2]
+            if e[2] != t or t != 'bool':
+                bad('`let _: %s` of a value of type %s' % (e[2], t), line)
+            return p, s, t
+        if k == 'tint':
+            if e[2] not in ('usize', 'u8') or not ints.fits(e[1], e[2]):
+                bad('integer literal of type %s' % e[2], line)
+            return [], str(e[1]), e[2]
+        if k == 'matches':
+            _, scrut, pats, _ = e
+            p, s, t = self.vex(scrut, c)
+            if t not in NUM and t != 'char':
+                bad('`matches!` on a value of type %s' % t, line)
+            tests = []
+            for q in pats:
+                if q[0] == 'pint' and t in NUM:
+                    tests.append('%s == %d' % (s, q[1]))
+                elif q[0] == 'pmax' and t == 'usize':
+                    tests.append('%s == UNSET' % s)
+                elif q[0] == 'pchar' and t == 'char':
+                    tests.append('%s == %s' % (s, lean_char(q[1])))
+                else:
+                    bad('`matches!`: pattern of form %s on a value of type %s' % (q[0], t), line)
+            return p, '(%s)' % ' || '.join(tests), 'bool'
         if k == 'not':
             p, s, t = self.vex(e[1], c)
             if t != 'bool':
@@ -407,9 +458,24 @@ class Translator:
                 if t not in NUM:
                     bad('capacity of type %s' % t, line)
                 return [], '([] : List Char)', 'String'
+            if len(path) == 1 and path[0] not in SIGS:
+                gen, ptypes, ret = self.helper(path[0], line)
+                if len(args) != len(ptypes):
+                    bad('`%s`: wrong number of arguments' % path[0], line)
+                pre, vals = [], []
+                for a, w in zip(args, ptypes):
+                    p, v, t = self.vex(a, c)
+                    if not (t == w or (t == 'int' and w in NUM)):
+                        bad('argument of `%s` has type %s, expected %s' % (path[0], t, w), line)
+                    pre += p
+                    vals.append(v)
+                return pre, '(%s %s)' % (gen, ' '.join(vals)), ret
             bad('call of `%s`' % '::'.join(path), line)
         if k == 'mcall':
             _, recv, m, args, _ = e
+            if m == 'count' and not args and recv[0] == 'mcall' and recv[2] == 'filter' and len(recv[3]) == 1 \
+                    and recv[3][0][0] == 'path' and len(recv[3][0][1]) == 1 and isinstance(c.types.get(recv[3][0][1][0]), tuple):
+                recv = recv[:3] + ([c.types[recv[3][0][1][0]][1]],) + recv[4:]       # `let f = |x| …; ….filter(f)`
             if m == 'count' and not args and recv[0] == 'mcall' and recv[2] == 'filter' and len(recv[3]) == 1 \
                     and recv[3][0][0] == 'closure' and recv[1][0] == 'mcall' and recv[1][2] == 'bytes' and not recv[1][3]:
                 p, s, t = self.vex(recv[1][1], c)
@@ -422,10 +488,17 @@ class Translator:
                 pb, sb, tb = self.vex(body, c2)
                 if tb != 'bool' or pb:
                     bad('the closure of `filter` must be a `bool` expression that cannot panic', cl)
-                return [], '(List.filter (fun %s => %s) (strBytes %s)).length' % (lean_id(pat[1]), sb, s), 'usize'
+                return [], '(List.filter (fun %s => %s) (strBytes %s)).length' % (vid(pat[1]), sb, s), 'usize'
             p, s, t = self.vex(recv, c)
             if t == 'str' and m == 'len' and not args:
                 return p, '(strBytes %s).length' % s, 'usize'
+            if t in ('str', 'String') and m == 'is_empty' and not args:
+                return p, '(List.isEmpty %s)' % s, 'bool'
+            if t in ('usize', 'u8') and m in ('min', 'max', 'saturating_sub', 'abs_diff') and len(args) == 1:
+                pa, a, ta = self.vex(args[0], c)
+                if not (ta == t or ta == 'int'):
+                    bad('argument of `.%s(..)` has type %s' % (m, ta), line)
+                return p + pa, ints.method(m, s, a, t), t
             bad('method call `.%s(…)` on a value of type %s' % (m, t), line)
         if k == 'if':
             _, cnd, th, el, _ = e
@@ -442,7 +515,7 @@ class Translator:
         """the value of a buffer function that ends here"""
         if c.kind != 'buffer':
             bad('`%s` ends without a value' % c.fn)
-        return ('some %s' if c.fallible else '%s') % lean_id(c.buf)
+        return ('some %s' if c.fallible else '%s') % vid(c.buf)
 
     def value(self, e, c, ind):
         """lines for the value `e` of a non-buffer function"""
@@ -470,12 +543,16 @@ class Translator:
     def stmts(self, stmts, c, ind, k):
         if not stmts:
             return k(c, ind)
+        ints.mark_shadow_lets(stmts, self)
         s, rest = stmts[0], stmts[1:]
         kind, line = s[0], s[-1]
         cont = lambda c2, i2: self.stmts(rest, c2, i2, k)
         after = lambda c_inner, i2: cont(c, i2)
         if kind in ('expr', 'tail'):
             e = s[1]
+            if e[0] == 'matches':
+                # `matches!(x, P | Q)` IS `match x { P | Q => true, _ => false }` (the macro's definition)
+                e = ('match', e[1], [(e[2], ([], ('bool', True, line)), line), ([('pwild', line)], ([], ('bool', False, line)), line)], line)
             if e[0] == 'unit':
                 return cont(c, ind)
             if e[0] == 'panic':
@@ -495,16 +572,25 @@ class Translator:
                     bad('statement after the value', line)
                 return self.value(e, c, ind)
             bad('statement that is not a write into the buffer, a call, `if`, `match` or `for`', line)
+        if kind == 'let' and s[3][0] == 'closure':
+            # `let f = |x| e;`: nothing happens here; the closure is looked up where `f` is handed to an iterator adaptor. It must
+            # not capture a variable (then its meaning cannot change between here and there)
+            _, name, mut, e, _ = s
+            if mut or any(x in c.types for x in self.free_names(e[2], [])):
+                bad('`let %s = |..| ..`: a `mut` closure, or one that captures a variable' % name, line)
+            c2 = self.bind(c, name, 'bool', line)
+            c2.types[name] = ('closure', e)
+            return cont(c2, ind)
         if kind == 'let':
             _, name, mut, e, _ = s
             p, v, t = self.vex(e, c)
-            c2 = self.bind(c, name, t, line)
+            c2 = self.bind(c, name, t, line, ints.shadow_ok(self, s))
             if t == 'String':
                 if not mut or c.buf is not None:
                     bad('a second buffer `%s`' % name, line)
                 c2.buf = name
             out, i2 = self.emit_pre(p, ind)
-            return out + [i2 + 'let %s : %s := %s' % (lean_id(name), LEAN_T[c2.types[name]], v)] + cont(c2, i2)
+            return out + [i2 + 'let %s : %s := %s' % (vid(name), LEAN_T[c2.types[name]], v)] + cont(c2, i2)
         if kind == 'for':
             return self.for_loop(s, c, ind, cont)
         if kind == 'return':
@@ -513,18 +599,18 @@ class Translator:
 
     def join(self, e, c, ind, cont):
         """a branching statement that is not last: `let buf := if … then … buf else buf` (through `Option` if a branch can panic)"""
-        b = lean_id(c.buf)
+        b = vid(c.buf)
         for fallible in ((False, True) if c.fallible else (False,)):
             cj = c.copy()
             cj.fallible = fallible
             end = (lambda c2, i2: [i2 + 'some ' + b]) if fallible else (lambda c2, i2: [i2 + b])
-            ndefs, nnames, ntmp = len(self.defs), set(self.names), self.tmpn
+            ndefs, nnames, ntmp, nhelp = len(self.defs), set(self.names), self.tmpn, dict(getattr(self, 'helpers', {}))
             try:
                 body = (self.if_cps if e[0] == 'if' else self.match_cps)(e, cj, ind + '  ', end)
                 break
             except NeedsFallible:
                 del self.defs[ndefs:]
-                self.names, self.tmpn = nnames, ntmp
+                self.names, self.tmpn, self.helpers = nnames, ntmp, nhelp
                 if fallible or not c.fallible:
                     raise
         if not fallible:
@@ -540,7 +626,7 @@ class Translator:
     def effect(self, e, c, ind, cont):
         """`buf.push(x)`, `buf.push_str(s)`, `f(buf, …)`, `child.to_str(buf, p)` -> lines, or None"""
         line = e[-1]
-        b = lean_id(c.buf) if c.buf else None
+        b = vid(c.buf) if c.buf else None
         if e[0] == 'mcall' and self.is_buf(e[1], c) and e[2] in ('push', 'push_str') and len(e[3]) == 1:
             p, v, t = self.vex(e[3][0], c)
             want = 'char' if e[2] == 'push' else 'str'
@@ -635,9 +721,9 @@ class Translator:
                 if (v, key) in FIELD_ADAPTORS:
                     fn, mty = FIELD_ADAPTORS[(v, key)]
                     args[key] = p[1] + '_m'
-                    lets.append('let %s : %s := %s %s_m' % (lean_id(p[1]), LEAN_T[tag], fn, p[1]))
+                    lets.append('let %s : %s := %s %s_m' % (vid(p[1]), LEAN_T[tag], fn, p[1]))
                 else:
-                    args[key] = lean_id(p[1])
+                    args[key] = vid(p[1])
                 binds.append((p[1], tag))
             elif p[0] == 'pvariant' and p[1] == 'Assertion' and ftypes[key] == 'Assertion':
                 akey = None
@@ -731,10 +817,10 @@ class Translator:
         if irrefutable_binds is not None:
             c2, out = c, []
             for n, s, t in irrefutable_binds:
-                if lean_id(n) == s:
+                if vid(n) == s:
                     continue                      # `(lo, hi) => …` on the scrutinee `(lo, hi)`: the same values
                 c2 = self.bind(c2, n, t, aline)
-                out.append(ind + 'let %s : %s := %s' % (lean_id(n), LEAN_T[c2.types[n]], s))
+                out.append(ind + 'let %s : %s := %s' % (vid(n), LEAN_T[c2.types[n]], s))
             return out + self.block(body, c2, ind, k)
         test = ' || '.join('(%s)' % x if ' && ' in x and len(tests) > 1 else x for x in tests)
         return [ind + 'if (%s) then' % test] + self.block(body, c.copy(), ind + '  ', k) + [ind + 'else'] \
@@ -789,22 +875,81 @@ class Translator:
         cl = self.bind(c, var, et, line)
         if idx:
             cl = self.bind(cl, idx, 'usize', line)
-        b = lean_id(c.buf)
+        b = vid(c.buf)
         cap = sorted(x for x in self.free_names(body, []) if x in c.types and x != c.buf and c.types[x] in LEAN_T)
-        params = ''.join(' (%s : %s)' % (lean_id(x), LEAN_T[c.types[x]]) for x in cap)
-        call = name + ''.join(' ' + lean_id(x) for x in cap)
+        params = ''.join(' (%s : %s)' % (vid(x), LEAN_T[c.types[x]]) for x in cap)
+        call = name + ''.join(' ' + vid(x) for x in cap)
         ret = 'Option (List Char)' if c.fallible else 'List Char'
         ixs = ' Nat →' if idx else ''
-        ixp = ', %s' % lean_id(idx) if idx else ''
+        ixp = ', %s' % vid(idx) if idx else ''
         lines = ['def %s%s : List %s →%s List Char → %s' % (name, params, LEAN_T[et], ixs, ret),
                  '  | []%s, %s => %s' % (ixp, b, 'some ' + b if c.fallible else b),
-                 '  | %s :: rest_%s, %s =>' % (lean_id(var), ixp, b)]
-        lines += self.stmts(body, cl, '    ', lambda c2, i2: [i2 + '%s rest_%s %s' % (call, ' (%s + 1)' % lean_id(idx) if idx else '', b)])
+                 '  | %s :: rest_%s, %s =>' % (vid(var), ixp, b)]
+        lines += self.stmts(body, cl, '    ', lambda c2, i2: [i2 + '%s rest_%s %s' % (call, ' (%s + 1)' % vid(idx) if idx else '', b)])
         self.defs.append(('a `for` loop of `%s`: the elements left%s, the buffer' % (c.fn, ', the index' if idx else ''), lines, c.group))
         start = '%s %s%s %s' % (call, src, ' 0' if idx else '', b)
         if c.fallible:
             return [ind + 'match %s with' % start, ind + '| none => none', ind + '| some %s =>' % b] + cont(c, ind + '  ')
         return [ind + 'let %s : List Char := %s' % (b, start)] + cont(c, ind)
+
+    # ---- a free function that is not in the table: translated too, if it takes and returns scalars and its body is one value
+    SCALARS = {'char': 'char', 'u8': 'u8', 'usize': 'usize', 'bool': 'bool'}
+
+    def helper(self, fn, line):
+        if not hasattr(self, 'helpers'):
+            self.helpers = {}
+        if fn in self.helpers:
+            if self.helpers[fn] is None:
+                bad('`%s` is recursive' % fn, line)
+            return self.helpers[fn]
+        toks = self.toks
+        tops = top_level_positions(toks)
+        ii = [i for i in tops if toks[i].text == 'fn' and toks[i + 1].text == fn]
+        if len(ii) != 1:
+            bad('call of `%s` (not a function of the translator\'s table, and there %s top-level `fn %s` to translate)' % (
+                fn, 'is no' if not ii else 'are several', fn), line)
+        pz = Parser(toks, ii[0] + 2)
+        if not pz.at('('):
+            bad('call of `%s`: a generic function' % fn, line)
+        pz.next()
+        params = []
+        while not pz.at(')'):
+            if pz.at('mut'):
+                bad('call of `%s`: a `mut` parameter' % fn, line)
+            n = pz.ident()
+            pz.expect(':')
+            ty = pz.type_([',', ')'])
+            if ty not in self.SCALARS:
+                bad('call of `%s`: parameter `%s: %s` (only char / u8 / usize / bool)' % (fn, n, ty), line)
+            params.append((n, self.SCALARS[ty]))
+            if pz.at(','):
+                pz.next()
+        pz.next()
+        pz.expect('->')
+        rty = pz.type_(['{'])
+        if rty not in self.SCALARS:
+            bad('call of `%s`: return type `%s`' % (fn, rty), line)
+        blk = pz.block()
+        self.helpers[fn] = None
+        c = Ctx()
+        c.fn, c.kind, c.buf, c.fallible, c.group, c.dep_if = fn, 'value', None, False, None, False
+        c.types = dict(params)
+        c.ret = self.SCALARS[rty]
+        saved_tmp, self.tmpn = self.tmpn, 0
+        try:
+            body = self.block(blk, c, '  ', lambda c2, i2: [i2 + self.done(c2)])
+        except NeedsFallible as ex:
+            bad('%s in `%s`, which has no way to report a panic' % (ex.msg, fn), ex.line)
+        self.tmpn = saved_tmp
+        gen = 'genAux' + ''.join(w[:1].upper() + w[1:] for w in fn.split('_'))
+        if gen in self.names:
+            bad('name clash for the helper `%s`' % fn, line)
+        self.names.add(gen)
+        ps = ''.join(' (%s : %s)' % (vid(n), LEAN_T[t]) for n, t in params)
+        self.defs.append(('`fn %s` (lib.rs line %d): a helper, translated because it is called' % (fn, toks[ii[0]].line),
+                          ['def %s%s : %s :=' % (gen, ps, LEAN_T[c.ret])] + body, None))
+        self.helpers[fn] = (gen, [t for _, t in params], c.ret)
+        return self.helpers[fn]
 
     # ---- the functions
     def run(self):
@@ -837,21 +982,21 @@ class Translator:
                 c.ret = {'is_special': 'bool'}.get(fn)
                 c.dep_if = (fn == 'push_usize')
                 self.fallible[fn] = fallible
-                ndefs, nnames, self.tmpn = len(self.defs), set(self.names), 0
+                ndefs, nnames, self.tmpn, nhelp = len(self.defs), set(self.names), 0, dict(getattr(self, 'helpers', {}))
                 try:
                     body = self.block(blk, c, '  ', lambda c2, i2: [i2 + self.done(c2)])
                     break
                 except NeedsFallible as ex:
                     del self.defs[ndefs:]
-                    self.names = nnames
+                    self.names, self.helpers = nnames, nhelp
                     if fallible or kind != 'buffer':
                         bad('%s in `%s`, which has no way to report a panic' % (ex.msg, fn), ex.line)
             ret = {'value': 'Bool', 'cow': 'Option (List Char)'}.get(kind) or ('Option (List Char)' if fallible else 'List Char')
-            ps = ''.join(' (%s : %s)' % (lean_id(n), LEAN_T[t]) for n, t in params)
+            ps = ''.join(' (%s : %s)' % (vid(n), LEAN_T[t]) for n, t in params)
             if fn == 'to_str':
                 head = 'def genToStr (self : Expr) (buf : List Char)%s : %s :=' % (ps, ret)
             elif buf:
-                head = 'def %s (%s : List Char)%s : %s :=' % (GEN[fn], lean_id(buf), ps, ret)
+                head = 'def %s (%s : List Char)%s : %s :=' % (GEN[fn], vid(buf), ps, ret)
             else:
                 head = 'def %s%s : %s :=' % (GEN[fn], ps, ret)
             lines = [head] + body
@@ -923,8 +1068,8 @@ def main(argv):
     except Unsupported as e:
         where = '%s:%s: ' % (src, e.line) if e.line else '%s: ' % src
         failure = 'rs2lean_tostr.py: NOT TRANSLATED - %s%s' % (where, e.msg)
-    except (OSError, IndexError, StopIteration, KeyError, ValueError) as e:
-        failure = 'rs2lean_tostr.py: NOT TRANSLATED - %s: %r' % (src, e)
+    except Exception as e:                  # whatever goes wrong inside the translator is a refusal: never a stale file
+        failure = 'rs2lean_tostr.py: NOT TRANSLATED - %s: %s: %r' % (src, type(e).__name__, e)
     if failure is not None:
         print(failure)
         if not stub_on_failure or out == '-':
